@@ -345,6 +345,56 @@ func ruleFinalize(c *Ctx) *RuleResult {
 			})
 		}
 	}
+	// (f) sibling pools: every Mark with non-zero flags re-stamps the entry's
+	// mark order (finalisers run in reverse order of *marking*, and the two pool
+	// implementations must agree on what a re-mark does)
+	for _, tn := range []string{"ClonePool", "UnsafePool"} {
+		f := p.Func("runtime/internal/luagc", "(*"+tn+").Mark")
+		if f == nil {
+			r.broken("anchor unresolved: luagc.(*%s).Mark", tn)
+			continue
+		}
+		var stamps []ssa.Instruction
+		forEachInstr(f, func(ins ssa.Instruction) {
+			if st, ok := ins.(*ssa.Store); ok {
+				if fa, ok := st.Addr.(*ssa.FieldAddr); ok {
+					if _, _, fn := fieldOfAddr(fa); fn == "markOrder" {
+						stamps = append(stamps, ins)
+					}
+				}
+			}
+		})
+		okAll := len(stamps) > 0
+		gc := newGuardCtx(f)
+		forEachInstr(f, func(ins ssa.Instruction) {
+			ret, ok := ins.(*ssa.Return)
+			if !ok || (f.Recover != nil && ret.Block() == f.Recover) {
+				return
+			}
+			// returns on the flags == 0 branch are exempt
+			for _, ge := range gc.MustEdges(ret.Block()) {
+				if rel, ok := ge.Relation(); ok && rel.Op.String() == "==" {
+					if k, isK := constInt(rel.B); isK && k == 0 && rel.A == f.Params[len(f.Params)-1] {
+						return
+					}
+				}
+			}
+			dom := false
+			for _, st := range stamps {
+				if instrDominates(st, ret) {
+					dom = true
+				}
+			}
+			if !dom {
+				okAll = false
+			}
+		})
+		if okAll {
+			r.ok(fmt.Sprintf("(f) luagc.(*%s).Mark stamps a new mark order on every mark", tn))
+		} else {
+			r.fail("mark-order-not-restamped:"+tn, p.Pos(f.Pos()), fmt.Sprintf("luagc.(*%s).Mark does not assign a new mark order on every path with non-zero flags: re-marking a value (a second setmetatable) would keep its old place, so finalisers run in an order that differs from the other pool implementation and from 'reverse order of marking'", tn))
+		}
+	}
 	checkPool("(*ClonePool).ExtractAllMarkedFinalize", fin, true)
 	checkPool("(*ClonePool).ExtractAllMarkedRelease", rel, false)
 	return r
